@@ -1495,6 +1495,10 @@ Error Assembler::_emit(InstId inst_id, const Operand_& o0, const Operand_& o1, c
               goto InvalidInstruction;
             }
 
+            if (!check_gp_id(o0, o1, kZR)) {
+              goto InvalidPhysId;
+            }
+
             if (shift_value >= op_size) {
               goto InvalidImmediate;
             }
@@ -1520,6 +1524,11 @@ Error Assembler::_emit(InstId inst_id, const Operand_& o0, const Operand_& o1, c
         shift_type -= uint32_t(ShiftOp::kUXTB);
         if (shift_type > 7 || shift_value > 4) {
           goto InvalidImmediate;
+        }
+
+        // CMN|CMP (extend) - SP allowed in Rn (ZR is not), ZR allowed in Rm (SP is not).
+        if (!check_gp_id(o0, kSP) || !check_gp_id(o1, kZR)) {
+          goto InvalidPhysId;
         }
 
         // Validate whether the register operands match extend option.
